@@ -9,6 +9,7 @@ import (
 	"runtime/debug"
 	"strings"
 	"sync"
+	"time"
 
 	"github.com/lindb/roaring"
 
@@ -355,7 +356,7 @@ func (h *history) run(storeDir string) {
 				expect = l0 >= need
 				kv.VerifStoreCompact(h.store)
 			}
-			kv.VerifFamilyWait(h.fam)
+			waitIdle(h.fam)
 			errs := h.logs.newErrors()
 			after, err := h.readFamily()
 			if err != nil {
@@ -390,7 +391,7 @@ func (h *history) run(storeDir string) {
 				res.violation("C03/flush/error", fmt.Sprintf("step %d: flushing generated blocks failed: %v", i, err), h.witness(nil))
 				return
 			}
-			kv.VerifFamilyWait(h.fam)
+			waitIdle(h.fam)
 			h.ref.Add(h.seq, blks)
 			h.seq++
 			h.countShape(shape)
@@ -511,6 +512,21 @@ func firstN(s []string, n int) []string {
 		return s[:n]
 	}
 	return s
+}
+
+// waitIdle waits for the background job of the family. family.compact's goroutine signals the wait group BEFORE it
+// clears the "compacting" flag (defer order in kv/family.go), so a compaction requested right after Wait returned can
+// be dropped while the flag is still set; the harness therefore also waits for the flag (a logical condition; the
+// 60 s bound is only a watchdog and ends in a panic -> harness error -> inconclusive).
+func waitIdle(fam kv.Family) {
+	kv.VerifFamilyWait(fam)
+	start := time.Now()
+	for kv.VerifFamilyBusy(fam) {
+		time.Sleep(200 * time.Microsecond)
+		if time.Since(start) > time.Minute {
+			panic("harness: family still busy one minute after its background job was awaited")
+		}
+	}
 }
 
 // logTail reads what lindb logged (LOG_LEVEL=error, stdout of the child goes to child.log) since the last call.
